@@ -211,16 +211,64 @@ def setup(world, cfg, record=None):
   random.seed(g[0] if g else 12345)
   algo = build(world, cfg)
   if record is not None:
-    # record what the real reproduction returns (step -> children): the oracle table of the model
-    orig = algo.reproduction
+    # record what the real reproduction returns (step -> children) and every PRNG draw it makes
+    # (step -> log entries of harness.c14.RecRandom): the oracle tables of the model
+    target = algo.generator if cfg['kind'] == 'real' and cfg['name'] == 'dedup' else algo
+    orig = target.reproduction
+    log = []
+    install_recorders(orig, log)
 
     def recording(pop, global_state, step):
+      before = len(log)
       out = orig(pop, global_state=global_state, step=step)
-      record[step] = [world.idx(d) for d in out]
+      # a call is identified by its step and the population it is applied to
+      key = '%d:%d:%d' % (step, sum(d.metadata.get('feedback_sequence_number', 0) for d in pop), len(pop))
+      record.setdefault('table', {})[key] = [world.idx(d) for d in out]
+      record.setdefault('events', {})[key] = list(log[before:])
       return out
-    algo.rebind(reproduction=recording)
+    target.rebind(reproduction=recording)
   algo.setup(world.spec)
   return algo
+
+
+_REC_CLASS = []
+
+
+def rec_random_class():
+  """harness.c14.RecRandom (logs every public PRNG call as index events) with `getrandbits` overridden
+  too, so that random.Random keeps its getrandbits-based `_randbelow`: the recorded instance draws exactly
+  what a plain random.Random(seed) draws, and recorded and unrecorded runs of an algorithm coincide."""
+  if not _REC_CLASS:
+    from harness import c14
+
+    class RecRandomSameStream(c14.RecRandom):
+      def getrandbits(self, k):
+        return super().getrandbits(k)
+    _REC_CLASS.append(RecRandomSameStream)
+  return _REC_CLASS[0]
+
+
+def install_recorders(op, log):
+  """Replaces the seeded `random.Random` of every operation reachable from `op` by a recording one."""
+  import random
+  import pyglove as pg
+  cls = rec_random_class()
+  seen = set()
+
+  def walk(o):
+    if isinstance(o, (list, tuple)):
+      for x in o:
+        walk(x)
+      return
+    if not isinstance(o, pg.Object) or id(o) in seen:
+      return
+    seen.add(id(o))
+    r = getattr(o, '_random', None)
+    if r is not None and r is not random and o.sym_hasattr('seed') and o.sym_getattr('seed') is not None:
+      o._random = cls(o.sym_getattr('seed'), log)     # pylint: disable=protected-access
+    for _, v in o.sym_items():
+      walk(v)
+  walk(op)
 
 
 def nsga2_objectives(r):
@@ -442,6 +490,58 @@ def modelled_nsga2(cfg):
   return cfg['kind'] == 'real' and cfg['name'] == 'nsga2'
 
 
+def modelled_real(cfg):
+  if cfg['kind'] != 'real':
+    return False
+  if cfg['name'] == 'dedup':      # Deduping over the instantiated single-objective algorithms
+    return cfg['inner']['kind'] == 'real' and cfg['inner']['name'] in ('regularized_evolution', 'hill_climb')
+  return cfg['name'] in ('nsga2', 'regularized_evolution', 'hill_climb', 'neat')
+
+
+def modelled_algo(cfg):
+  """The model configuration of a real algorithm, as built by pyglove/ext/evolution (pipeline texts
+  checked by translate/t_c15.py)."""
+  if cfg['name'] == 'dedup':
+    # hash_fn = index of the DNA: `d % H` with H beyond the space is the identity
+    return {'kind': 'dedup', 'inner': modelled_algo(cfg['inner']), 'hash': 1000003,
+            'max_dup': cfg.get('max_dup', 1), 'max_att': cfg.get('max_att', 20), 'auto': False}
+  init = {'kind': 'random', 'seed': cfg['seed'], 'seeded': True}
+  if cfg['name'] == 'nsga2':
+    return {'kind': 'evo', 'init': init, 'init_size': cfg['population_size'] * nsga2_init_factor(),
+            'repro': ['table', 1], 'update': ['nsga2', cfg['population_size']]}
+  if cfg['name'] == 'neat':
+    return {'kind': 'evo', 'init': init, 'init_size': cfg['population_size'],
+            'repro': ['table', 1], 'update': ['neat', 0]}
+  if cfg['name'] == 'regularized_evolution':
+    return {'kind': 'evo', 'init': init, 'init_size': cfg['population_size'],
+            'repro': ['c14reg', cfg['tournament_size']], 'update': ['c14last', cfg['population_size']]}
+  if cfg['name'] == 'hill_climb':
+    return {'kind': 'evo', 'init': init, 'init_size': cfg['init_population_size'],
+            'repro': ['c14hill', cfg['batch_size']], 'update': ['c14top', 1]}
+  raise ValueError(cfg['name'])
+
+
+def neat_view(obs):
+  """What the model predicts of a NEAT instance: counters, generation, population, living species."""
+  if 'error' in obs:
+    return obs
+  sp = (obs.get('gstate') or {}).get('living_species')
+  dr = lambda x: None if x is None else [x[1], x[2]]
+  return {'np': obs['np'], 'nf': obs['nf'], 'gen': obs['gen'], 'pop': obs['pop'],
+          'species': None if sp is None else [[dr(s['species']), [dr(m) for m in s['members']]] for s in sp]}
+
+
+def real_view(obs):
+  """What the model predicts of regularized_evolution / hill_climb (and of Deduping over them): counters,
+  generation, population, de-duplication memory."""
+  if 'error' in obs:
+    return obs
+  if 'cache' in obs:
+    return {'np': obs['np'], 'nf': obs['nf'], 'cache': obs['cache'], 'feedback_driven': obs['feedback_driven'],
+            'inner': real_view(obs['inner'])}
+  return {'np': obs['np'], 'nf': obs['nf'], 'gen': obs['gen'], 'pop': obs['pop']}
+
+
 _NSGA2_FACTOR = []
 
 
@@ -497,6 +597,8 @@ def continuation_claimed(cfg):
 
 def kind_name(cfg):
   k = cfg['kind']
+  if k == 'sched':
+    return 'sched'
   if k == 'dedup':
     return 'dedup(%s)' % kind_name(cfg['inner'])
   if k == 'evo':
@@ -614,11 +716,13 @@ class C15(Prop):
           'crash point has a proposal in flight and some has a reward; distinct by (algo, space, events).')
   trusted_base = [
       'random.Random bit streams (the oracle stream fed to the model is recorded from the real PRNG)',
-      'reproduction / population-update operations of Evolution are parameters of the model: tied for the '
-      'deterministic operations of the harness and for the NSGA2 population update (non-dominated sort, '
-      'crowding distance, elites; PgModel/Nsga2.lean, objective values from {0,1,2} so that the float '
-      'arithmetic of the code is exact) with the mutator recorded as an oracle table; regularized_evolution, '
-      'hill_climb, NEAT (speciation lives in DNA.userdata and species representatives) run oracle-only',
+      'reproduction / population-update operations of Evolution are parameters of the model; they are tied for '
+      'the deterministic operations of the harness, for regularized_evolution / hill_climb (and Deduping over '
+      'them) through the C14 operator model PgModel/Evo.lean evaluated over the recorded PRNG draws of every '
+      '_evolve call, for the NSGA2 update (PgModel/Nsga2.lean; objective values from {0,1,2} so that the float '
+      'arithmetic of the code is exact) and the NEAT update (PgModel/Neat.lean; flat spaces) with the children '
+      'of their reproduction recorded as an oracle table; pipeline texts are translator facts',
+      'recorded PRNG draws: harness.c14.RecRandom with getrandbits overridden (same bit stream as random.Random)',
       'pg.to_json_str / pg.from_json_str of the history (C05); DNA identity = index in spec.iter_dna() (C11)',
       'Deduping._cache is read directly (no public accessor for the de-duplication memory)',
       'modelled, not verified: the generator state machines of PgModel/Gen.lean (tied by correspondence at '
@@ -717,10 +821,21 @@ class C15(Prop):
         np_ += 1
     return events
 
-  DIMS = [[3], [4], [5], [7], [2, 2], [3, 2], [2, 3], [2, 2, 2], [4, 3], [3, 3], [5, 4], [6, 4]]
+  DIMS = [[3], [4], [5], [7], [2, 2], [3, 2], [2, 3], [2, 2, 2], [4, 3], [3, 3], [5, 4], [6, 4],
+          [2, 2, 2, 2, 2, 2, 2, 2]]      # 8 decisions: NEAT species tolerate one differing decision
+
+  def gen_sched(self, rng):
+    phases = [[rng.randint(1, 5), rng.choice([['const', rng.randint(0, 4)], ['step']])]
+              for _ in range(rng.randint(1, 4))]
+    total = sum(p[0] for p in phases)
+    n = total + rng.randint(0, 4)
+    return {'algo': {'kind': 'sched', 'phases': phases}, 'dims': [1], 'events': [], 'n': n,
+            'k': rng.randint(0, n), 'stride': rng.weighted([(3, 1), (1, 2), (1, 3)])}
 
   def generate(self, rng, tier):
     n_cases = 100 if tier == 'quick' else 800
+    for _ in range(12 if tier == 'quick' else 150):
+      yield self.gen_sched(rng.fork())
     for _ in range(n_cases):
       dims = rng.choice(self.DIMS)
       size = 1
@@ -746,19 +861,24 @@ class C15(Prop):
     yield from self.generate(rng.fork(), tier)
 
   def model_request(self, case):
+    if is_sched(case):
+      live, rec = sched_steps(case)
+      return {'op': 'sched', 'phases': case['algo']['phases'], 'live': live, 'rec': rec}
     cfg = case['algo']
     world = world_of(case['dims'])
-    if modelled_nsga2(cfg):
-      # NSGA2's selection is in the model (PgModel/Nsga2.lean); the mutator's children are an oracle table
-      table = {}
-      run_live(world, cfg, case['events'], record=table)
-      n_init = cfg['population_size'] * nsga2_init_factor()
-      algo = {'kind': 'evo', 'init': {'kind': 'random', 'seed': cfg['seed'], 'seeded': True},
-              'init_size': n_init, 'repro': ['table', 1], 'update': ['nsga2', cfg['population_size']]}
+    if modelled_real(cfg):
+      # the real operators are in the model (NSGA2: PgModel/Nsga2.lean with the mutator's children as an
+      # oracle table; regularized_evolution / hill_climb: the C14 operator model PgModel/Evo.lean over the
+      # recorded PRNG draws of every _evolve call)
+      rec = {}
+      run_live(world, cfg, case['events'], record=rec)
+      algo = modelled_algo(cfg)
       n = sum(1 for e in case['events'] if e[0] == 'p') + 4
+      n = min(4000, n * attempts_bound(algo) + 4)
       return {'algo': algo, 'space': list(range(len(world.dnas))), 'streams': streams(world, algo, n),
-              'events': case['events'], 'm': 0, 'cuts': list(case.get('cuts', [])),
-              'table': {str(k): v for k, v in table.items()}}
+              'events': case['events'], 'm': 0, 'cuts': list(case.get('cuts', [])), 'dims': list(case['dims']),
+              'table': {str(k): v for k, v in rec.get('table', {}).items()},
+              'events_by_step': {str(k): v for k, v in rec.get('events', {}).items()}}
     if has_real(cfg):
       return None            # real reproduction operators: oracle only
     m = case.get('m', 3)
@@ -768,12 +888,18 @@ class C15(Prop):
             'events': case['events'], 'm': m, 'cuts': list(case.get('cuts', []))}
 
   def project_impl(self, case, impl_out):
-    if modelled_nsga2(case['algo']) and 'model' in impl_out:
-      return {'ks': [{'live': nsga2_view(e['live']), 'rec': nsga2_view(e['rec']), 'hist': e['hist'],
+    if is_sched(case):
+      return impl_out['model']
+    if modelled_real(case['algo']) and 'model' in impl_out:
+      view = (nsga2_view if modelled_nsga2(case['algo']) else
+              neat_view if case['algo']['name'] == 'neat' else real_view)
+      return {'ks': [{'live': view(e['live']), 'rec': view(e['rec']), 'hist': e['hist'],
                       'live_next': [], 'rec_next': []} for e in impl_out['model']['ks']]}
     return Prop.project_impl(self, case, impl_out)
 
   def impl(self, case):
+    if is_sched(case):
+      return {'model': run_sched(case), 'log': [], 'n': 0}
     world = world_of(case['dims'])
     cfg = case['algo']
     ks, log = crash_points(world, cfg, case['events'], case.get('m', 3), case.get('feed', 'list'),
@@ -781,6 +907,17 @@ class C15(Prop):
     return {'model': {'ks': ks}, 'log': log, 'n': len(world.dnas)}
 
   def oracle(self, case, out):
+    if is_sched(case):
+      m = out['model']
+      tail = m['live'][len(m['live']) - len(m['rec']):]
+      if tail != m['rec']:
+        live_steps, rec_steps = sched_steps(case)
+        i = next(j for j, (x, y) in enumerate(zip(tail, m['rec'])) if x != y)
+        return {'signature': 'stepwise:phase-not-in-history',
+                'what': 'StepWise%s: at step %d the uninterrupted schedule gives %s, the schedule of an instance '
+                        'recovered at step %d gives %s' % (case['algo']['phases'], rec_steps[i], tail[i],
+                                                           case['k'], m['rec'][i])}
+      return None
     cfg = case['algo']
     fails = []
     log = out['log']
@@ -820,12 +957,16 @@ class C15(Prop):
     """At least one crash point with a proposal still in flight and at least one with a reward."""
     if 'model' not in out:
       return False
+    if is_sched(case):
+      return case['k'] > 0 and len(case['algo']['phases']) > 1
     ks = out['model']['ks']
     return (any(any(h[1] is None for h in e['hist']) for e in ks)
             and any(any(h[1] is not None for h in e['hist']) for e in ks))
 
   def describe(self, case, out):
     cfg = case['algo']
+    if is_sched(case):
+      return ['algo:sched', 'sched-phases:%d' % len(cfg['phases']), 'sched-stride:%d' % case.get('stride', 1)]
     h = ['algo:' + kind_name(cfg)]
     if 'model' not in out:
       return h + ['timeout']
@@ -856,6 +997,8 @@ class C15(Prop):
     return h
 
   def shrink_candidates(self, case):
+    if is_sched(case):
+      return
     ev = case['events']
     # shorter prefixes first (the failing crash point is usually early), then single-event removal
     for n in range(0, len(ev)):
@@ -891,6 +1034,28 @@ def feedback_straddles_chunks(case, log, k, n_hist):
       return True
     hi = max(hi, c)
   return False
+
+
+def is_sched(case):
+  return case['algo'].get('kind') == 'sched'
+
+
+def sched_steps(case):
+  live = list(range(0, case['n'], case.get('stride', 1)))
+  return live, [x for x in live if x >= case['k']]
+
+
+def run_sched(case):
+  """A scheduled hyper-parameter (`scalars.StepWise`) as the operators of an Evolution use it: evaluated
+  with the step of the current call.  live: one object called at every step of the run; rec: the fresh
+  object of an instance recovered at step k, first called at step k."""
+  from pyglove.ext import scalars
+
+  def build():
+    return scalars.StepWise([(l, scalars.STEP if pv[0] == 'step' else pv[1]) for l, pv in case['algo']['phases']])
+  live_steps, rec_steps = sched_steps(case)
+  a, b = build(), build()
+  return {'live': [a(x) for x in live_steps], 'rec': [b(x) for x in rec_steps]}
 
 
 def c15_auto(cfg):
